@@ -446,7 +446,8 @@ Fixpoint snap_of (i : nat) (l : list (nat * list nat)) : list nat :=
 
 (* C02: at most once, never a rejected one, nothing after the exit, real-time order
    (a send that had returned Ok before send j began is handled before j), a wrong-typed
-   send returns InvalidActorType and is never handled, and - when the actor is still alive
+   send is rejected (InvalidActorType, or SendErr with the message handed back when the actor
+   no longer accepts anything) and is never handled, and - when the actor is still alive
    and idle at the end - every Ok send was handled *)
 Record o2 := mkO2 { b_begun : list nat; b_snap : list (nat * list nat); b_ok : list nat;
                     b_rej : list nat; b_ended : list nat; b_handled : list nat;
@@ -470,7 +471,7 @@ Definition o2_step (o : o2) (e : ev) : o2 :=
                else mkO2 (b_begun o) (b_snap o) (i :: b_ok o) (b_rej o) (i :: b_ended o)
                          (b_handled o) (b_exited o) (b_wrong o) (b_bad o)
            | RErr m =>
-               if Nat.eqb m i && negb (mem i (b_handled o)) && negb (mem i (b_wrong o))
+               if Nat.eqb m i && negb (mem i (b_handled o))
                then mkO2 (b_begun o) (b_snap o) (b_ok o) (i :: b_rej o) (i :: b_ended o)
                          (b_handled o) (b_exited o) (b_wrong o) (b_bad o)
                else o2_fail o
